@@ -188,6 +188,22 @@ pub const FUZZ_OPS: [&str; 12] = [
     "length-api", "honest-stream", "injected-state", "compare_with-strings", "adversarial-reader", "update-after-huge",
 ];
 
+static SMALL: std::sync::atomic::AtomicBool = std::sync::atomic::AtomicBool::new(false);
+
+/// Inputs for the fuzz: capped when running under an interpreter (reduced scale).
+fn fuzz_input(rng: &mut Rng) -> Vec<u8> {
+    if SMALL.load(std::sync::atomic::Ordering::Relaxed) {
+        let len = match rng.below(4) {
+            0 => rng.below(12) as usize,
+            1 => rng.range(40, 70) as usize,
+            _ => rng.range(5, 420) as usize,
+        };
+        gen::content(rng, len, None).0
+    } else {
+        gen::input(rng, false, None).0
+    }
+}
+
 fn fuzz_one<V: Variant>(op: usize, rng: &mut Rng, rep: &mut Report) {
     let seed_for_case = rng.next_u64();
     let mut r2 = Rng::new(seed_for_case);
@@ -206,7 +222,7 @@ fn fuzz_one<V: Variant>(op: usize, rng: &mut Rng, rep: &mut Report) {
             let mut acc = 0u64;
             match op {
                 0 => {
-                    let (data, _) = gen::input(rng, false, None);
+                    let data = fuzz_input(rng);
                     let mut g = V::new_gen();
                     let mut pos = 0;
                     for n in gen::pieces(rng, data.len()) {
@@ -323,7 +339,7 @@ fn fuzz_one<V: Variant>(op: usize, rng: &mut Rng, rep: &mut Report) {
                     }
                 }
                 7 => {
-                    let (data, _) = gen::input(rng, false, None);
+                    let data = fuzz_input(rng);
                     let script = super::c12::gen_script(rng, data.len());
                     let mut rd = super::c12::Scripted::new(&data, &script);
                     acc ^= V::hash_stream(&mut rd).is_ok() as u64;
@@ -410,6 +426,7 @@ pub fn run_fuzz(ctx: &Ctx, rep: &mut Report) {
     rep.rule = "API fuzz: seeded call sequences over 12 operation kinds x 5 variants (generator histories with interleaved finalize/clone, parsing arbitrary bytes, TryFrom of arbitrary slices, storing into arbitrary buffers, comparison + every accessor, quartile() with in- and out-of-range indices, the length API, honest scripted readers, injected and saturated generator states, the string comparison helper) plus 8 adversarial Read implementations (three that report more than the buffer holds, one that claims more than it wrote, one that panics, error storms); panics are classified (documented bucket index / bounds panic provoked by a contract-violating reader / propagated from the harness / unexpected = violation); with hook H7 every invariant!() evaluation is observed; the process runs natively (release, debug-assertion+overflow-check) and under Miri / ASan / valgrind where a report is a violation; distinct by (operation, variant, case seed)".into();
     let observing = tlsh::verif::INVARIANTS_OBSERVED && tlsh::verif::set_invariant_observer(invariant_observer);
     rep.count(if observing { "invariant_observer:on" } else { "invariant_observer:off" }, 1);
+    SMALL.store(ctx.scale < 0.5 && ctx.tool.starts_with("miri"), std::sync::atomic::Ordering::Relaxed);
     let n = ctx.n(200_000, 8_000_000);
     for i in 0..n {
         let mut rng = ctx.rng("c17-fuzz", i);
@@ -417,7 +434,7 @@ pub fn run_fuzz(ctx: &Ctx, rep: &mut Report) {
         let v = rng.below(5);
         if op == 10 {
             let kind = rng.below(READER_KINDS.len() as u64) as usize;
-            let len = rng.below(5000) as usize;
+            let len = rng.below(if SMALL.load(std::sync::atomic::Ordering::Relaxed) { 300 } else { 5000 }) as usize;
             let data = rng.bytes(len);
             dispatch_variant(v, &mut |vi| match vi {
                 0 => adversarial_one::<crate::variant::VShort>(kind, &data, rep),
